@@ -902,7 +902,7 @@ ARG_VALUES = {
                 '-9223372036854775809', '1.5', '0X1f', '0B2', '00', '-', '+', '0x', '1e3', ' 1'],
     'text-out': ['', '-', '/tmp/x.txt', 'out'],
     'perm': ['644', '0644', '600', '8', '777777777777', '37777777777', '40000000000', '-1', '', '0o7', '+7'],
-    'max': ['0', '100', '-5', 'x', '1_000', '0x7f'],
+    'max': ['0', '100', '-5', 'x', '0x7f', '1e3'],          # (no underscores: the model's ParseInt leaves the underscore syntax out)
     'addr': [':8080', 'localhost:0', ''],
     'base': ['.', '/srv', ''],
 }
